@@ -103,6 +103,11 @@ STD_ENUMS = {
 STD_ENUM_DISCR = {"Ordering": {"Less": -1, "Equal": 0, "Greater": 1}}
 
 
+VARIANT_KIND = {("Option", "None"): "unit", ("Option", "Some"): "tuple", ("Result", "Ok"): "tuple", ("Result", "Err"): "tuple",
+                ("ControlFlow", "Continue"): "tuple", ("ControlFlow", "Break"): "tuple", ("Ordering", "Less"): "unit",
+                ("Ordering", "Equal"): "unit", ("Ordering", "Greater"): "unit"}
+
+
 def parse_enums_from_source(src_texts):
     """Very small Rust reader: enum name -> [variant names] in declaration order."""
     enums = {}
@@ -129,9 +134,10 @@ def parse_enums_from_source(src_texts):
                 while part.startswith("#"):
                     k = mirparse.scan_balanced(part, part.index("[") + 1, "]")
                     part = part[k + 1:].strip()
-                mm = re.match(r"([A-Za-z_]\w*)", part)
+                mm = re.match(r"([A-Za-z_]\w*)\s*([({]?)", part)
                 if mm:
                     variants.append(mm.group(1))
+                    VARIANT_KIND[(name, mm.group(1))] = {"(": "tuple", "{": "struct"}.get(mm.group(2), "unit")
             enums[name] = variants
     return enums
 
@@ -822,7 +828,8 @@ class Engine:
         # unit enum variants of known enums, e.g. `const TokenKind::Eol` / `Option::<T>::None`
         nt = clean_path(t)
         m = re.fullmatch(r"(?:[\w]+::)*([A-Za-z_]\w*)::([A-Za-z_]\w*)", nt)
-        if m and self.variant_index(m.group(1), m.group(2)) is not None:
+        if (m and self.variant_index(m.group(1), m.group(2)) is not None
+                and VARIANT_KIND.get((m.group(1), m.group(2)), "unit") == "unit"):
             n = Node(fresh_root("k"), ty=m.group(1))
             n.tag = bv64(self.variant_index(m.group(1), m.group(2)))
             n.variants = {}
